@@ -528,6 +528,7 @@ func propC16(c *Ctx) {
 				o.Fail(c.W.Pos(imp.Pos()), "InitGenesis never restores "+f+" within the unrolling bound", nil)
 			}
 		}
+		indexPaired(c, "C16.R3", "InitGenesis")
 		oi := c.Ob("C16.R3", "opchild InitGenesis: every list of the genesis record is walked to its end on every returning path and every visited element is written")
 		gst := c.W.ByPath[modPath+"/x/"+childTypes].Types.Scope().Lookup("GenesisState").Type().Underlying().(*types.Struct)
 		for _, p := range c.Paths(imp, PO{Params: []string{"k", "ctx", "data"}, Visits: 3, NoInline: noInl, Pure: []string{"ABCIValidatorUpdate"}}) {
